@@ -16,6 +16,7 @@ import CxxModel.Theorems.VarDecl
 import CxxModel.Theorems.VarDecls
 import CxxModel.Theorems.VarInit
 import CxxModel.Theorems.TypedefForm
+import CxxModel.Theorems.FwdDecl
 import CxxModel.Theorems.AccessForm
 import CxxModel.Theorems.BlockEnd
 import CxxModel.Theorems.Verbose
@@ -646,5 +647,47 @@ theorem toplevel_typedef (env : Env) (hp : RulesProgress env.cfg = true) (F D : 
     by rw [han7, hsB.anon]; exact hsA.anon, hmu7, by rw [hnx7, hsB.nextId]; exact hsA.nextId⟩
   rw [hi]
   simp only [dispatch, parseTypedef, bind, interp_bind, hiB, hi7]
+
+/-- **`class N ;` / `struct a::b::N ;` / `union N ;` through `parse()`'s loop**, in any block, with an
+    active visitor that does not raise here: exactly ONE `on_forward_decl` for the innermost open
+    block with the written class key and qualified name, the access level in force (none outside a
+    class) and the doc text `get_doxygen` found; consumed exactly, no doc text handed on. -/
+theorem toplevel_forward_decl (env : Env) (hp : RulesProgress env.cfg = true) (F D : Nat) (w : World)
+    (kw first : Tok) (pairs : List (Tok × Tok)) (semi : Tok) (bk b1 bmid b' : Buf)
+    (blk : Block) (rest : List Block) (hstack : w.stack = blk :: rest)
+    (hmu : w.muted = false) (hfa : ¬ env.faultAt = some w.delivered)
+    (htkw : tokenEofOk env.cfg w.buf = .ok (some kw, bk)) (hkw : isClassKey kw.value = true) (hkwt : kw.type = kw.value)
+    (htf : tokenEofOk env.cfg bk = .ok (some first, b1)) (hf : first.type = "NAME") (hfv : plainVal first.value = true)
+    (hall : ∀ p ∈ pairs, p.1.type = "DBL_COLON" ∧ p.2.type = "NAME" ∧ plainVal p.2.value = true)
+    (hy : Yields env.cfg b1 (pairs.flatMap (fun p => [p.1, p.2])) bmid)
+    (htok : tokenEofOk env.cfg bmid = .ok (some semi, b')) (hs : semi.type = ";") (hF : pairs.length + 2 ≤ F) :
+    ∃ (d : Option String) (bD : Buf) (w7 : World) (ct : CTok) (ev : Event),
+      getDoxygen env.cfg env.mcRe w.buf = .ok (d, bD) ∧
+      interp env (mainBody F (core F (D + 1 + 1)) none) w = (w7, .ok (.inl none)) ∧
+      w7.buf = b' ∧ w7.stack = { blk with loc := .tok ct.sidx } :: rest ∧
+      w7.events = w.events ++ [ev] ∧ ev.kind = .item (.forwardDecl (plainFwd kw.value first pairs blk d)) ∧
+      ev.stateId = blk.id ∧ ev.parentId = rest.head?.map (·.id) ∧
+      w7.delivered = w.delivered + 1 ∧ w7.anon = w.anon ∧ w7.muted = false ∧ w7.nextId = w.nextId := by
+  obtain ⟨d, bD, wA, ct, hd, hsA, hbA, htyc, hv, hi⟩ := mainBody_item env hp F (core F (D + 1 + 1)) w kw bk htkw
+  obtain ⟨w7, ev, hi7, hb7, hst7, hev7, hk7, hid7, hpar7, hdl7, han7, hmu7, hnx7, _⟩ :=
+    parseDeclarations_fwd env F D ct d first pairs semi { wA with mainTok := some ct } b1 bmid b' blk rest
+      (by show wA.stack = _; rw [hsA.stack]; exact hstack) (by show wA.muted = _; rw [hsA.muted]; exact hmu)
+      (by show ¬ env.faultAt = some wA.delivered; rw [hsA.delivered]; exact hfa) (by rw [hv]; exact hkw)
+      (by rw [htyc, hv]; exact hkwt) (by show tokenEofOk env.cfg wA.buf = _; rw [hbA]; exact htf) hf hfv hall hy htok hs hF
+  refine ⟨d, bD, w7, ct, ev, hd, ?_, hb7, hst7, by rw [hev7]; show wA.events ++ _ = _; rw [hsA.events], by rw [hk7, hv], hid7, hpar7,
+    by rw [hdl7]; show wA.delivered + 1 = _; rw [hsA.delivered], by rw [han7]; exact hsA.anon, hmu7, by rw [hnx7]; exact hsA.nextId⟩
+  rw [hi]
+  have hkt : Gen.dispatchTable.lookup ct.type = none ∧ Gen.keepDoxygen.contains ct.type = false := by
+    simp only [isClassKey, Bool.or_eq_true, beq_iff_eq] at hkw
+    rw [htyc, hkwt, dispatch_table_eq, keep_doxygen_eq]
+    rcases hkw with (h | h) | h <;> (rw [h]; decide)
+  have hti : topItem F (core F (D + 1 + 1)) ct d = parseDeclarations F (core F (D + 1 + 1)) ct d := by
+    unfold topItem
+    rw [hkt.1]
+  have hcar : carry ct d = none := by
+    unfold carry
+    rw [hkt.2]
+    rfl
+  rw [hti, hi7, hcar]
 
 end Cxx
